@@ -89,6 +89,10 @@ P = {
   'runtime monitor: exhaustive table comparison + reference-built descriptor bodies'),
 }
 
+COMMON = (' Since the seeded-change rounds (DESIGN section 6.3) every monitor also re-checks results obtained earlier after later calls '
+          '(caches, pooled buffers, aliasing), feeds inputs in several memory shapes (nil / exact capacity / spare capacity holding other bytes), '
+          'interleaves failing calls, and repeats its calls from eight goroutines at once on arguments / objects of their own with every result '
+          'compared with the reference (hidden shared state; DESIGN section 0).')
 checks, na = [], []
 for pid in sorted(P):
     level, ref, text, note, tech = P[pid]
@@ -105,9 +109,9 @@ for pid in sorted(P):
             'evidence_file': f'/verif/evidence/{pid}.json',
             'replay_cmd_template': f'./check {pid} --replay {{path}}',
             'engine': 'gots-runtime-monitors',
-            'level_claimed': {'category': level, 'text': text, 'design_ref': 'DESIGN.md section ' + ref},
+            'level_claimed': {'category': level, 'text': text + COMMON, 'design_ref': 'DESIGN.md section ' + ref},
             'level_note': note,
-            'technique': tech,
+            'technique': tech + '; results of earlier calls re-checked after later calls; the same calls made from 8 goroutines on objects of their own, each result compared with the reference',
         })
 
 m = {
